@@ -56,6 +56,12 @@ CHECKS = {
  "C14": (MC, GXT,
          "One real Broker on an in-memory connection, 2-4 callers x 1-2 calls, MaxOpenRequests 1-3, server actions on the oldest unanswered request {correct, swapped / unknown correlation id, truncated header/body, oversized / undersized / negative length, stall, abrupt close}, read-timeout ticks, Close racing; all executions with <=4 (quick) / <=5-7 (thorough) deviations; oracle: own response or error, mismatching id never delivered, fail-stop after a fault, requests on the wire <= MaxOpenRequests.",
          "one call enters per step (callers never race for the broker lock within a step); one server fault per execution.", "§6 C14"),
+ "C15": (MC, "explicit-state BFS over metadata-response histories through the real client (canonical key = bridge dump of the client's caches, validated by an unpruned differential search) + controlled-scheduler exploration of reader/refresher interleavings down to lock acquisitions + exhaustive enumeration of reachability patterns",
+         "History: 10-16 operations x 21-26 cluster snapshots (topics appearing/vanishing/erroring per class, partitions added/removed, leaders moving/unavailable/unknown, brokers added/removed/readdressed, full vs per-topic refresh): the state graph closes at depth 3; after every event all read APIs are compared with a reference fold. Atomicity: readers vs refresher at quiescent points and at every acquisition of client.lock (preemption bound 2-3): every observation equals the state before or after the refresh. Reachability: 1-3 seeds x 0-2 known brokers x every per-address behaviour x every seed order x every any() pick x Retry.Max 0/1: refresh/NewClient succeed iff a candidate answers.",
+         "open points of the property (WritablePartitions with an unknown leader id, per-topic responses and the broker list, ...) are accepted either way and counted in the evidence.", "§6 C15"),
+ "C16": (MC, GXT + " + bounded-exhaustive families of size vectors x flush settings through the real producer",
+         "Message-size vectors at/around each limit (MaxMessageBytes, per-partition batch limit, MaxRequestSize lowered inside the scenario) x Flush.{Messages,Bytes,Frequency,MaxMessages} x message formats v0/v1/v2 x 1-2 partitions x input-first / latency policies; GX scenarios with <=3-4 (quick) / <=4-6 (thorough) deviations; oracle at the simulated broker and on a byte tap of the connection: records per request <= MaxMessages, batch key+value bytes <= MaxMessageBytes unless single, frame <= MaxRequestSize, oversize message rejected and never sent, one outcome per message, flush liveness (no further input needed once a trigger fires).",
+         "rejection is judged with a 36-byte margin around the version-dependent overhead constant; one broker, no faults.", "§6 C16"),
 }
 NOT_YET = {}
 props = [json.loads(l) for l in open(os.path.join(ROOT, "properties.jsonl"))]
